@@ -93,6 +93,9 @@ def load_findings(prop_id: str) -> list[dict]:
 
 # ----------------------------------------------------------------------------------------------- driving
 def _worker_init(repo: str):
+    import logging
+
+    logging.getLogger("sqlglot").setLevel(logging.ERROR)
     sys.path.insert(0, repo)
     os.environ.setdefault("PYTHONHASHSEED", "0")
 
